@@ -84,6 +84,7 @@ func (u *Unit) callValue(st *State, fr *Frame, instr ssa.Instruction, fv Val, ar
 		return u.callFuncValue(st, fr, instr, fv, args, sig, resv, pos)
 	}
 	fn := fv.Fn.Fn
+	u.callSiteClauses(st, fr, relName(fn), args, pos)
 	c := u.eng.contractFor(fn)
 	if c != nil && !c.Inline {
 		return u.callContract(st, fr, fn, c, args, fv.Fn.Bind, resv, pos)
@@ -197,6 +198,20 @@ func (u *Unit) execRunDefers(st *State, fr *Frame) bool {
 // checkPost emits the postcondition obligations at a return of the top function.
 func (u *Unit) checkPost(st *State, fr *Frame, rs []Val, pos token.Pos) {
 	env := u.contractEnvFn(fr.fn, fr.params, fr.bind, rs, fr.entry)
+	// locals are visible in postconditions (final values); parameters keep their entry values
+	env.fr = fr
+	env.useLocals = true
+	env.localsAfterVars = true
+	// abandon-safety: every send that a spawned goroutine still owes fits into its channel
+	seen := map[Term]bool{}
+	for _, ch := range st.expectChans {
+		if seen[ch] {
+			continue
+		}
+		seen[ch] = true
+		goal := fmt.Sprintf("(<= (- (select %s %s) %s) %s)", u.heapGet(st, "C_expect", chanArr), ch, u.chanGet(st, "C_recvd", ch), u.chanGet(st, "C_cap", ch))
+		u.oblige(st, "chan-abandon", "", goal, pos, "sends still owed by spawned goroutines fit into the channel buffer (no goroutine blocks forever)", u.contract.abandonProps(), "")
+	}
 	for i, c := range u.contract.Ensures {
 		t, err := u.evalBool(st, env, c.Expr)
 		if err != nil {
@@ -286,12 +301,10 @@ func (u *Unit) applyPre(st *State, c *FuncContract, env *SpecEnv, name string, p
 
 func (u *Unit) applyPost(st *State, c *FuncContract, env *SpecEnv) {
 	for _, en := range c.Ensures {
-		t, err := u.evalBool(st, env, en.Expr)
-		if err != nil {
+		if err := u.assumeClause(st, env, en.Expr); err != nil {
 			u.fail(fmt.Sprintf("%s: ensures %q at call: %v", en.Where, en.Src, err))
 			continue
 		}
-		st.assume(t)
 	}
 }
 
@@ -357,7 +370,20 @@ func (u *Unit) modLocs(st *State, env *SpecEnv, m *Spec) ([]loc, string, error) 
 			for _, c := range []string{"C_sent", "C_recvd"} {
 				locs = append(locs, loc{comp: c, arrSort: "(Array Int Int)", sort: "Int", kind: "F", ref: a.Terms[0]})
 			}
+			if et := chanElem(a.T); et != nil {
+				for _, l := range u.eng.leavesOf(et) {
+					locs = append(locs, loc{comp: "C_last_" + mangle(stripMod(typeKey(et))) + mangle(l.Suffix), arrSort: "(Array Int " + l.Sort + ")", sort: l.Sort, kind: "F", ref: a.Terms[0]})
+				}
+			}
 			return locs, "", nil
+		default:
+			if gs, ok := u.eng.cs.GhostFields[m.Name]; ok && len(m.Args) == 1 {
+				a, err := u.eval(st, env, m.Args[0])
+				if err != nil {
+					return nil, "", err
+				}
+				return []loc{{comp: "GF_" + m.Name, arrSort: "(Array Int " + gs + ")", sort: gs, kind: "F", ref: objRef(a)}}, "", nil
+			}
 		case "mapstate":
 			a, err := u.eval(st, env, m.Args[0])
 			if err != nil {
@@ -539,6 +565,35 @@ func (u *Unit) wholeHavoc(st *State, comp, arrSort string, pos token.Pos) {
 	}
 }
 
+func (c *FuncContract) abandonProps() []string {
+	if p := c.Opts["abandon-props"]; p != "" {
+		return strings.Fields(p)
+	}
+	return nil
+}
+
+// callSiteClauses: caller-side obligations attached to calls of a given callee.
+func (u *Unit) callSiteClauses(st *State, fr *Frame, calleeName string, args []Val, pos token.Pos) {
+	if fr.contract == nil || len(st.frames) != 1 {
+		return
+	}
+	for _, cs := range fr.contract.CallSites {
+		if cs.Callee != calleeName {
+			continue
+		}
+		env := u.loopEnv(st, fr, fr.block)
+		for i, a := range args {
+			env.vars[fmt.Sprintf("$arg%d", i)] = a
+		}
+		t, err := u.evalBool(st, env, cs.Clause.Expr)
+		if err != nil {
+			u.fail(fmt.Sprintf("%s: callsite clause %q: %v", cs.Clause.Where, cs.Clause.Src, err))
+			continue
+		}
+		u.oblige(st, "callsite@"+calleeName, cs.Clause.Label, t, pos, "at the call of "+calleeName+": "+cs.Clause.Src, cs.Clause.Props, cs.Clause.Where)
+	}
+}
+
 // closureCreated is a hook: closure-level contracts ("on creation, facts about the closure value").
 func (u *Unit) closureCreated(st *State, fr *Frame, cv Val, pos token.Pos) {
 }
@@ -546,7 +601,7 @@ func (u *Unit) closureCreated(st *State, fr *Frame, cv Val, pos token.Pos) {
 // callFuncValue: call through a function value of unknown identity.
 func (u *Unit) callFuncValue(st *State, fr *Frame, instr ssa.Instruction, fv Val, args []Val, sig *types.Signature, resv ssa.Value, pos token.Pos) bool {
 	// type-level contract keyed by signature
-	key := "functype::" + types.TypeString(sig, func(p *types.Package) string { return p.Name() })
+	key := sigKey(sig)
 	if c, ok := u.eng.cs.Funcs[key]; ok {
 		c.Used = true
 		if c.Trusted {
@@ -771,4 +826,14 @@ func (u *Unit) builtinAppend(st *State, fr *Frame, args []Val, resv ssa.Value, p
 	if resv != nil {
 		fr.regs[resv] = Val{T: resv.Type(), Terms: []Term{nb, no, nl, nc}}
 	}
+}
+
+// objRef: the object identity of a pointer or interface value.
+func objRef(v Val) Term {
+	if v.T != nil {
+		if _, ok := v.T.Underlying().(*types.Interface); ok && len(v.Terms) == 2 {
+			return v.Terms[1]
+		}
+	}
+	return v.Terms[0]
 }
